@@ -1,10 +1,17 @@
 /-
   C18 — model of `PersistedQueryExtension` (persisted_query.go:20-69) in front of `execute`.
 
-  The JSON/HTTP envelope is outside this model (it is a parameter: the harness decodes nothing,
-  it *constructs* requests whose decoded form it knows, and the C17 model covers the envelope).
-  A request is what `PersistedQueryExtension` sees after decoding:
-    * `query`        : `Request.Query` ("" when absent; `Request.Document` is always nil on this path)
+  This hand-written model is what the property theorems (Props.lean) are proved about and what the
+  driver runs. It is tied to the source twice: `Generated.step` (regenerated from persisted_query.go
+  on every check) is proved equal to it after the abstraction `Go.abs` (PropsGenerated.lean), and
+  the harness compares it with the running code.
+
+  The JSON/HTTP envelope is outside this model (the harness sends the driver the Go-level value
+  tree of `Request.Extensions`; `Go.abs` in Abs.lean maps it to a `Req`; the C17 model covers the
+  envelope). A `Req` is what `PersistedQueryExtension` distinguishes in its input:
+    * `query`        : `Request.Query` ("" when absent)
+    * `hasDoc`       : `Request.Document != nil` (never on the `ServeGraphQL` path; a direct caller of
+                       `PersistedQueryExtension` may pass a parsed document instead of text)
     * `ext`          : `Extensions["persistedQuery"]` when it is a JSON object, else `none`
     * `version`      : whether `ext["version"]` compares equal to 1 / 1.0
     * `hashHex`      : `ext["sha256Hash"]` when it is a JSON string, else `none`
@@ -27,6 +34,7 @@ structure Ext where
 structure Req where
   query : String
   ext : Option Ext
+  hasDoc : Bool := false
   deriving Repr
 
 /-- Calls made on the application's `PersistedQueryStorage`. -/
@@ -47,6 +55,9 @@ def Storage.get (s : Storage) (h : Hash) : String :=
   match s.find? (fun p => p.1 == h) with
   | some p => p.2
   | none => ""
+
+/-- A best-effort storage may lose what it held under a key (eviction, a failed backend). -/
+def Storage.evict (s : Storage) (h : Hash) : Storage := s.filter (fun p => p.1 != h)
 
 def hexVal (c : Char) : Option Nat :=
   if '0' ≤ c ∧ c ≤ '9' then some (c.toNat - '0'.toNat)
@@ -84,7 +95,11 @@ def step (H : String → Hash) (s : Storage) (r : Req) : Storage × List Call ×
   | some e =>
     match e.version with
     | .other => (s, [], .executed r.query)
-    | .one => if r.query == "" then lookup H s e else register H s r.query
+    | .one =>
+      if r.query == "" then
+        -- a request that carries a parsed document instead of text is neither looked up nor registered
+        if r.hasDoc then (s, [], .executed r.query) else lookup H s e
+      else register H s r.query
 
 /-- A whole history from a given storage. -/
 def run (H : String → Hash) : Storage → List Req → Storage × List (List Call × Out)
